@@ -146,7 +146,7 @@ def term_of(c, p, e):
     res = dv.coq_list([ls_common.zpairs(p['results'].get(t, [])) for t in range(nthr)])
     slots = dv.coq_list(['(%d,(%d,%s))' % (a, b, dv.zlit(t)) for a, b, t in e['slots']])
     return '(MC %d %d%%nat %s %s %s %s %d %d %s %d %s %d %d)' % (
-        e['N'], BUDGET, dv.coq_list([dv.coq_list([op_coq(o) for o in pr]) for pr in c['progs']]),
+        e['N'], ls_common.fuel_of(BUDGET, p['status']), dv.coq_list([dv.coq_list([op_coq(o) for o in pr]) for pr in c['progs']]),
         dv.coq_list([str(x) for x in c['sched']]), ls_common.zpairs(p['steps']), res, e['head'], e['tail'],
         slots, e['errs'], dv.zlit(e['dtor_live']), e['dtor_errs'], p['status'])
 
